@@ -5,6 +5,7 @@ Import ListNotations.
 From Snaps Require Import Base.Bytes Base.Assoc.
 From Snaps Require Import Model.PathModel Model.Api Model.Natural Model.Clean Model.RunFilter.
 From Snaps Require Import Proofs.BytesP Proofs.RunFilterP.
+From Snaps Require Import Proofs.FrameP Proofs.CleanEntriesP Proofs.CleanFilesP Proofs.CleanRunP.
 
 (* a snaps.Skip of test n protects n itself and every descendant n/... *)
 Theorem C08_skip_protects : forall skipped n m k,
@@ -41,3 +42,21 @@ Theorem C08_run_pattern_refuted :
   test_skipped_run [] (B "TestZeta|1") (B "TestAlpha - 1") = false.
 Proof. vm_compute. repeat split. Qed.
 Print Assumptions C08_run_pattern_refuted.
+
+(* for a WHOLE Clean run: the entries of a test that called a snaps.Skip* wrapper, and of its descendants, survive in every mode
+   and are not reported - whatever the registry says *)
+Theorem C08_run_skip_protected_entry_kept : forall s sort_opt count p es,
+  NoDup (map fst (s_fs s)) ->
+  In p (fr_used (run_files s count)) ->
+  alookup p (s_fs s) = Some (render (map to_entry es)) ->
+  Forall centry_ok es -> NoDup (map fst es) ->
+  forall n m k e, In n (s_skipped s) -> (m = n \/ exists r, m = (n ++ [slash] ++ r)%list) -> no_space m ->
+  In e es -> fst e = snapshot_occ_fmt m k ->
+  alookup p (s_fs (fst (clean_run s sort_opt count))) = Some (render (map to_entry (run_entries s sort_opt count p es))) /\
+  In e (run_entries s sort_opt count p es) /\
+  NoDup (map fst (run_entries s sort_opt count p es)) /\
+  ~ In (fst e) (file_report s sort_opt count p) /\
+  ((forall q, In q (fr_used (run_files s count)) -> q <> p -> ~ In (fst e) (file_report s sort_opt count q)) ->
+   ~ In (fst e) (cr_obsolete_tests (snd (clean_run s sort_opt count)))).
+Proof. exact run_skip_protected_entry_kept. Qed.
+Print Assumptions C08_run_skip_protected_entry_kept.
